@@ -17,7 +17,7 @@ TEXT = {
          "deterministic simulation: allocate entry/exit taps on simulated histories vs budget-rule oracle"),
  "C07": ("exploration", "3 (C07)", "per strategy and date the cash change reconciles with recorded flows, outlays, fees, swept carry and capital passed down; per trade the ledger books q*p*m + half spread (or custom-price difference) and commission(q, p*m) once, on the security's own parent, never as a flow, and the recorded fees / outlays / bid-offer rows must equal those sums; several trades per security per date, nested trees, commission probes counted apart from booked calls.",
          "deterministic simulation: per-date cash ledger reconciliation + per-trade specification booking"),
- "C08": ("exploration", "3 (C08)", "the schedule is the subject: redundant root.update(now) x k at seeded points must leave every public scalar and history frame byte-identical; at points with pending changes a forked tree read directly must equal a fork read after an explicit update, for seeded node x property; rows dated before the clock are snapshotted at every tick and must never change; every series handed out ends at now.",
+ "C08": ("exploration", "3 (C08)", "the schedule is the subject: redundant root.update(now) x k at seeded points must leave every public scalar and history frame byte-identical; at points with pending changes a forked tree read directly must equal a fork read after an explicit update, for seeded node x property; rows dated before the clock are snapshotted at every tick and must never change; every series handed out ends at now; a second driver runs hand-driven trees that start on a later row of their data and grow sub-strategies (parent= + setup_from_parent) between the operations.",
          "deterministic simulation: seeded placement of duplicate ticks / forced reads / deferred batches, fork-and-compare"),
  "C09": ("exploration", "3 (C09)", "replica under an adversarial schedule: the same calendar-gated child definition run stand-alone and nested under parents that never fund, fund late, fund tiny amounts, withdraw, flip weights or receive flows; the two index series must be byte-identical and the parent's universe column must carry it.",
          "deterministic simulation: allocation-schedule faults, nested vs stand-alone twin runs, byte comparison"),
@@ -38,13 +38,13 @@ TEXT.update({
          "deterministic simulation: tick faults at the simulated clock + per-algo reference on the same window"),
  "C15": ("exploration", "3 (C15)", "every weighting algo behind the oracle wrapper in real runs with a live drifting portfolio: stated relations (normalisation, inverse-vol products equal, equal risk contributions under the same estimator, caps preserve total, delta limits vs live weights, ex-ante vol = target, PTE trigger) on the same window. Thin fit, stated in DESIGN.",
          "deterministic simulation: windows positioned by the simulated clock, live portfolios, relation oracles"),
- "C16": ("exploration", "3 (C16)", "crash-like terminal state reached by an injected price shock: leveraged / short flat and nested portfolios pushed through, onto or just above zero equity on any date; the flag is judged at every root update against the reference model's equity, the tree must be flat right after the liquidating update and the ledger must still reconcile, afterwards no live spy runs and positions / value / cash stay constant; sub-strategies and FI roots never flagged.",
+ "C16": ("exploration", "3 (C16)", "crash-like terminal state reached by an injected price shock: leveraged / short flat and nested portfolios pushed through, onto or just above zero equity on any date; the flag is judged at every root update against the reference model's equity, the tree must be flat right after the liquidating update and the ledger must still reconcile, afterwards no live spy runs, nothing trades, and positions / value / cash stay constant on every remaining date of the data; sub-strategies and FI roots never flagged; equity is also driven through zero by withdrawals inside the algo run, by a worthless sub-strategy's neighbour and on levered coupon books.",
          "deterministic simulation: price-shock fault injection + model equity path + spy log over the subsequent history"),
  "C17": ("exploration", "3 (C17)", "fixed-income trees with all five security types: op-level runs against the reference ledger (notional per type, notional weights, carry accrued on the end-of-day position and swept once on the next date, additive index) and real Backtest runs with SetNotional + Rebalance behind a wrapper (notional_i = w_i x N) plus the renormalised result formula; one class (FixedIncomeSecurity sized by cash) is a known finding.",
          "deterministic simulation: reference ledger for carry / notional / additive index + oracle wrapper"),
  "C18": ("exploration", "3 (C18)", "every report of finished simulated backtests of every shape (nested, shared tickers, no trades, shorts, spreads) recomputed from the node histories; costless runs are replayed: get_transactions() fed to ReplayTransactions must reproduce positions and values.",
          "deterministic simulation: recomputation over finished histories + transaction-log replay"),
- "C19": ("exploration", "3 (C19)", "trees assembled through every constructor path are checked structurally and run by the real Backtest; membership change is the fault: a twin with every string / lazy child constructed up front must give the same histories (1e-10), a spy checks universe scoping inside running strategies, settings pushed from the top must reach nodes created mid-run; two algos that enumerate existing children are known findings.",
+ "C19": ("exploration", "3 (C19)", "trees assembled through every constructor path are checked structurally and run by the real Backtest; membership change is the fault: a twin with every string / lazy child constructed up front must give the same histories (1e-10), a spy checks universe scoping inside running strategies, settings pushed from the top must reach nodes created mid-run (lazily created securities and sub-strategies spawned by a running stack); two algos that enumerate existing children are known findings.",
          "deterministic simulation: lazy-child membership fault, lazy vs eager twin runs"),
  "C20": ("exploration", "3 (C20)", "FI trees with seeded unit-risk tables, multipliers, UpdateRisk histories, square / pseudo-inverse hedges and close / roll tables whose dates are timers on the simulated clock (falling between ticks, prices absent after maturity): spies compare node.risk(s) with unit x position x multiplier summed over the tree, hedged measures with zero / the normal equations, positions with the tables, SelectActive with closed / rolled sets.",
          "deterministic simulation: timers on the simulated clock, once-only effects and tree aggregation checked by spies"),
